@@ -20,11 +20,11 @@ CLASSES = [
     "comment-header", "comment-between-blocks", "comment-after-expressions-header", "comment-between-assignments",
     "trailing-words", "trailing-unit", "trailing-arithmetic-like", "trailing-hash-only", "trailing-power-tower",
     "blank-lines", "whitespace-only-lines", "indentation", "crlf", "no-final-newline", "break-after-operator", "break-after-operand-in-parens",
-    "unit-annotation", "description-annotation", "trailing-unit-change",
+    "unit-annotation", "description-annotation", "trailing-unit-change", "comment-unicode-line-separators",
 ]
 RULE = (
     "model text M (vlib.modelgen, named and default components, units / descriptions) and M' = M + drawn inert "
-    "edits of one class out of 19: comment lines (header, between blocks, directly after an expressions(...) "
+    "edits of one class out of 20: comment lines (header, between blocks, directly after an expressions(...) "
     "header, between assignments), trailing comments whose text is words / a unit / arithmetic-like (1/0, 2**, "
     "unbalanced brackets, numbers) / a bare '#' / a power tower (9**9**9, run in a killable subprocess with a "
     "20 s guard), blank lines, indentation with spaces and tabs, CRLF, missing final newline, line breaks after "
@@ -38,6 +38,7 @@ ASSUMPTIONS = ["a comment ends at the end of its line; a line break is layout on
 
 WORDS = ["a comment", "rate constant", "see eq 4", "TODO check", "Hodgkin Huxley", "the  gate", "µV é ü", "x", "note: important"]
 UNITS_OK = ["mV", "ms", "ms**-1", "pA*pF**-1", "mM", "uF", "1", "nS", "mM*ms**-1"]
+SEPARATORS = ["net flux\x0csee eq 3", "a\x0bb", "x\x85y", "p\u2028q", "one\x1ctwo", "old version:\x0caa = 1", "was\u2029zz = 2*t", "\x1d", "tab\there", "cr\x0c# nested"]
 ARITH = ["1/0", "2**", "(((", ")", "1 +", "3 * (2", "42", "1e5", "0", "-", "a/b", "x**y", "[1, 2]", "{", "mV**", "1/mV/0", "**2", "2 2", "1..2", "=", "== 3"]
 TOWERS = ["9**9**9", "9**9**9**9", "7**8**9 mV"]
 
@@ -80,6 +81,13 @@ def edit_text(draw, model, klass):
         if not cands:
             return None
         lines.insert(draw(st.sampled_from(cands)), cm)
+    elif klass == "comment-unicode-line-separators":
+        # characters str.splitlines() treats as line boundaries but the grammar does not
+        if draw(st.booleans()):
+            trailing(SEPARATORS)
+        else:
+            starts = [i for i, ln in enumerate(lines0) if re.match(r"^(states|parameters|expressions)\(", ln)]
+            lines.insert(draw(st.sampled_from(starts)) if starts else 0, "# " + draw(st.sampled_from(SEPARATORS)))
     elif klass == "trailing-words":
         trailing(WORDS)
     elif klass == "trailing-unit":
@@ -248,7 +256,7 @@ def _first_diff(a, b):
 
 
 CLAIM = {
-    "text": "Bounded random exploration: each generated model is edited by one class of 'inert' changes (19 classes covering comments in every placement, comment text including arithmetic-like strings and power towers, blank lines, indentation, line endings, continuation, unit / description annotations) and must load, keep every definition's component and produce byte-identical Python and C code; hanging loads are detected in a killable subprocess. No absence claim.",
+    "text": "Bounded random exploration: each generated model is edited by one class of 'inert' changes (20 classes covering comments in every placement, comment text including arithmetic-like strings and power towers, blank lines, indentation, line endings, continuation, unit / description annotations) and must load, keep every definition's component and produce byte-identical Python and C code; hanging loads are detected in a killable subprocess. No absence claim.",
     "note": "Trusted: the edit generator only produces changes the statement calls inert. Several classes are open known findings (known_findings.json); they stay in the search and are counted as excluded.",
     "technique": "property-based testing (Hypothesis): metamorphic relation (inert text edit => identical model and output), subprocess guard for hangs",
 }
